@@ -32,6 +32,7 @@ class ExecutorBase(FutureExecutor):
         cloudpickle_register(ind=3)
         self._max_cores = max_cores
         self._default_cores = 1
+        self._default_threads_per_core = 1
         self._spawner = None
         self._future_queue: queue.Queue = queue.Queue()
         self._process: Optional[RaisingThread] = None
@@ -101,7 +102,9 @@ class ExecutorBase(FutureExecutor):
         if cores is None or (cores == 1 and self._default_cores >= 1):
             # the executor-level number of cores is used for this call
             cores = self._default_cores
-        threads_per_core = resource_dict.get("threads_per_core", 1)
+        threads_per_core = resource_dict.get(
+            "threads_per_core", self._default_threads_per_core
+        )
         check_cores_and_threads(cores=cores, threads_per_core=threads_per_core)
         if (
             self._max_cores is not None
